@@ -53,6 +53,7 @@ pub struct EnvCensus {
     pub crowded_batches: u64,
     pub large_volume_sessions: u64,
     pub resume_sessions: u64,
+    pub cancel_end_times_checked: u64,
     pub same_batch_targets: u64,
     pub multi_instruction_orders: u64,
     pub trades: u64,
@@ -81,7 +82,7 @@ impl EnvCensus {
         macro_rules! add { ($($f:ident),*) => { $( self.$f += o.$f; )* } }
         add!(
             sessions, steps, instructions, new_orders, cancels, modifies, empty_batches, full_batches,
-            overfull_batches, crowded_batches, large_volume_sessions, resume_sessions, same_batch_targets, multi_instruction_orders, trades, schedules_by_hint,
+            overfull_batches, crowded_batches, large_volume_sessions, resume_sessions, cancel_end_times_checked, same_batch_targets, multi_instruction_orders, trades, schedules_by_hint,
             schedules_by_search, search_candidates, submissions_checked, rejected_submissions,
             rows_compared, asymmetric_rows, deep_level_rows, toggles, toggles_after_submission, steps_while_disabled, market_rejected,
             trades_after_reenable, cross_asset_id_collisions, drains, tie_like_stamps, multi_asset_sessions
@@ -123,7 +124,7 @@ pub fn session<E: SimEnv>(cfg: &SessionCfg, cs: &mut EnvCensus, out: &mut Sessio
     let on = |f: u32| cfg.flags & f != 0;
     let mut rng = Sm::derive(cfg.sub_seed, 0xE57);
     let assets = E::ASSETS;
-    let gen = EnvGenCfg::random(&mut rng, assets);
+    let gen = EnvGenCfg::random(&mut rng, assets, E::LEVELS);
     let overfull = on(E_OVERFULL);
     let step_size: u64 = if overfull {
         rng.range(2, 8)
@@ -259,7 +260,8 @@ pub fn session<E: SimEnv>(cfg: &SessionCfg, cs: &mut EnvCensus, out: &mut Sessio
                     let tick = gen.ticks[asset];
                     if tick > 1 {
                         let base = gen.price(&mut rng, asset);
-                        let p = base + rng.range(1, tick as u64 - 1) as u32;
+                        let d = rng.range(1, tick as u64 - 1) as u32;
+                        let p = base.checked_add(d).unwrap_or(base - d); // coarse grids: stay inside the price type
                         offgrid.push((pos, Ins::New { asset, bid: rng.chance(0.5), vol: rng.range(1, 50) as u32, trader: 5, price: Some(p) }));
                     }
                 }
@@ -449,6 +451,7 @@ pub fn session<E: SimEnv>(cfg: &SessionCfg, cs: &mut EnvCensus, out: &mut Sessio
         // ---- the step ----
         let hint = rand_shuffle_perm(&xr, batch.len());
         let trades_before: Vec<usize> = (0..assets).map(|a| env.env_trades(a).len()).collect();
+        let status_before: Vec<Vec<u8>> = (0..assets).map(|a| env.env_orders(a).iter().map(|o| o.status).collect()).collect();
         if let Err(p) = catch(|| env.do_step(&mut xr)) {
             return efail(step, "abort", "panic_in_step", p, &batch);
         }
@@ -498,6 +501,22 @@ pub fn session<E: SimEnv>(cfg: &SessionCfg, cs: &mut EnvCensus, out: &mut Sessio
                         cs.schedules_by_search += 1;
                     }
                     cs.search_candidates += candidates_tried;
+                    // an order cancelled by this step's only cancellation for it ends at the time of that instruction:
+                    // start + its position in the schedule that reproduced the environment (also when the step carries
+                    // more instructions than time units and the clock was set back at the end of an earlier step)
+                    for (pos, k) in order.iter().enumerate() {
+                        if let Ins::Cancel { asset, id } = &batch[*k] {
+                            let n_cancels = batch.iter().filter(|x| matches!(x, Ins::Cancel { asset: a2, id: i2 } if a2 == asset && i2 == id)).count();
+                            let was = status_before[*asset].get(*id).copied();
+                            let o = env.env_order(*asset, *id);
+                            if n_cancels == 1 && o.status == CANCELLED && was != Some(CANCELLED) && !(o.price == 0 || o.price == u32::MAX) {
+                                cs.cancel_end_times_checked += 1;
+                                if o.end != start + pos as u64 {
+                                    return efail(step, "step", "end_time_of_cancelled_order", format!("order ({}, {}) was cancelled by the instruction processed at position {} (time {}), its record says it ended at {}: {:?}", asset, id, pos, start + pos as u64, o.end, o), &batch);
+                                }
+                            }
+                        }
+                    }
                     let mut h = Fnv::new();
                     for k in &order {
                         h.u32(*k as u32);
